@@ -247,24 +247,95 @@ theorem decode10_body (p ws : Bytes) (h : AllSpace ws) :
   unfold trimSpace trimLeft
   rw [dropWhile_dropWhile]
 
-/-- NETCONF 1.0 without a declaration: the result is the payload, whitespace trimmed. -/
-theorem decode10_frame10 (p ws : Bytes) (h : AllSpace ws)
-    (hdr : hasPrefix (p ++ Gen.Response.v1Dot0Delim ++ ws) Gen.Response.xmlHeader = false) :
-    decode10 (p ++ Gen.Response.v1Dot0Delim ++ ws) = trimSpace p := by
-  unfold decode10 trimPrefix
+/-- the trimmed text of a padded 1.0 message: the payload without its leading white space, and the
+delimiter -/
+theorem trimSpace_frame10 (ws1 p ws2 : Bytes) (h1 : AllSpace ws1) (h2 : AllSpace ws2) :
+    trimSpace (ws1 ++ p ++ Gen.Response.v1Dot0Delim ++ ws2) = trimLeft isSpaceB p ++ Gen.Response.v1Dot0Delim := by
+  have hlead : (ws1 ++ p).dropWhile isSpaceB = p.dropWhile isSpaceB := by
+    induction ws1 with
+    | nil => rfl
+    | cons w t ih =>
+      have hw : isSpaceB w = true := h1 w (by simp)
+      simp only [List.cons_append, List.dropWhile_cons, hw, if_true]
+      exact ih (fun b hb => h1 b (by simp [hb]))
+  have hd : Gen.Response.v1Dot0Delim = 93 :: ([93, 62, 93, 93] ++ [62]) := by decide
+  unfold trimSpace trimLeft
+  have e : ws1 ++ p ++ Gen.Response.v1Dot0Delim ++ ws2 = (ws1 ++ p) ++ (93 : UInt8) :: ([93, 62, 93, 93, 62] ++ ws2) := by
+    rw [hd]; simp
+  have hdw : ∀ (a : Bytes) (x : UInt8) (r : Bytes), isSpaceB x = false →
+      (a ++ x :: r).dropWhile isSpaceB = a.dropWhile isSpaceB ++ x :: r := by
+    intro a x r hx
+    induction a with
+    | nil => simp [List.dropWhile, hx]
+    | cons y t ih =>
+      simp only [List.cons_append, List.dropWhile]
+      split
+      · exact ih
+      · rfl
+  rw [e, hdw (ws1 ++ p) 93 _ (by decide), hlead]
+  have e2 : List.dropWhile isSpaceB p ++ (93 : UInt8) :: ([93, 62, 93, 93, 62] ++ ws2)
+      = (List.dropWhile isSpaceB p ++ [93, 93, 62, 93, 93]) ++ (62 : UInt8) :: ws2 := by simp
+  rw [e2, trimRight_append_all _ 62 ws2 h2 (by decide), hd]
+  simp
+
+theorem trimSpace_trimLeft (p : Bytes) : trimSpace (trimLeft isSpaceB p) = trimSpace p := by
+  unfold trimSpace trimLeft
+  rw [dropWhile_dropWhile]
+
+/-- NETCONF 1.0 without a declaration, for every white space in front of the message (the LF a
+server sends behind the previous message's delimiter, when a read boundary separates the two) and
+behind it: the result is the payload, white space trimmed. The hypothesis says that the message,
+once its white space is gone, does not begin with the canonical declaration. -/
+theorem decode10_frame10 (ws1 p ws2 : Bytes) (h1 : AllSpace ws1) (h2 : AllSpace ws2)
+    (hdr : hasPrefix (trimLeft isSpaceB p ++ Gen.Response.v1Dot0Delim) Gen.Response.xmlHeader = false) :
+    decode10 (ws1 ++ p ++ Gen.Response.v1Dot0Delim ++ ws2) = trimSpace p := by
+  unfold decode10
+  rw [trimSpace_frame10 ws1 p ws2 h1 h2]
+  unfold trimPrefix
   rw [hdr]
   simp only [Bool.false_eq_true, if_false]
-  exact decode10_body p ws h
+  have := trimSpace_frame10 [] (trimLeft isSpaceB p) [] (by intro b hb; simp at hb) (by intro b hb; simp at hb)
+  simp only [List.nil_append, List.append_nil] at this
+  rw [this, trimSuffix_append]
+  unfold trimLeft
+  rw [dropWhile_dropWhile]
+  exact trimSpace_trimLeft p
 
-/-- NETCONF 1.0 with the canonical declaration in front: it is removed as well. -/
-theorem decode10_frame10_decl (p ws : Bytes) (h : AllSpace ws) :
-    decode10 (Gen.Response.xmlHeader ++ p ++ Gen.Response.v1Dot0Delim ++ ws) = trimSpace p := by
-  have e : Gen.Response.xmlHeader ++ p ++ Gen.Response.v1Dot0Delim ++ ws = Gen.Response.xmlHeader ++ (p ++ Gen.Response.v1Dot0Delim ++ ws) := by
-    simp
-  unfold decode10 trimPrefix
-  rw [e, hasPrefix_append]
+/-- the hypothesis is satisfiable and the statement not vacuous: `LF SP <a/> ]]>]]> LF` -/
+example : hasPrefix (trimLeft isSpaceB [10, 32, 60, 97, 47, 62] ++ Gen.Response.v1Dot0Delim) Gen.Response.xmlHeader = false
+    ∧ decode10 ([10] ++ [32, 60, 97, 47, 62] ++ Gen.Response.v1Dot0Delim ++ [10]) = [60, 97, 47, 62] := by decide
+
+/-- NETCONF 1.0 with the canonical declaration in front of the payload, for every white space in
+front of the declaration and behind the delimiter: declaration and white space are removed, the
+result is the payload. (Before fix 72d4808 this held only with nothing in front of the
+declaration: finding C02-F21, `decode10_before_fix_keeps_declaration`.) -/
+theorem decode10_frame10_decl (ws1 p ws2 : Bytes) (h1 : AllSpace ws1) (h2 : AllSpace ws2) :
+    decode10 (ws1 ++ Gen.Response.xmlHeader ++ p ++ Gen.Response.v1Dot0Delim ++ ws2) = trimSpace p := by
+  have e : ws1 ++ Gen.Response.xmlHeader ++ p ++ Gen.Response.v1Dot0Delim ++ ws2
+      = ws1 ++ (Gen.Response.xmlHeader ++ p) ++ Gen.Response.v1Dot0Delim ++ ws2 := by simp
+  unfold decode10
+  rw [e, trimSpace_frame10 ws1 (Gen.Response.xmlHeader ++ p) ws2 h1 h2]
+  have hx : Gen.Response.xmlHeader = 60 :: Gen.Response.xmlHeader.tail := by decide
+  have hl : trimLeft isSpaceB (Gen.Response.xmlHeader ++ p) = Gen.Response.xmlHeader ++ p := by
+    rw [hx]
+    simp only [List.cons_append]
+    exact trimLeft_all_append [] 60 _ (by intro b hb; simp at hb) (by decide)
+  rw [hl]
+  have e2 : Gen.Response.xmlHeader ++ p ++ Gen.Response.v1Dot0Delim = Gen.Response.xmlHeader ++ (p ++ Gen.Response.v1Dot0Delim) := by simp
+  unfold trimPrefix
+  rw [e2, hasPrefix_append]
   simp only [if_true, List.drop_left]
-  exact decode10_body p ws h
+  have := decode10_body p [] (by intro b hb; simp at hb)
+  simpa using this
+
+/-- the result of a padded 1.0 message does not depend on the padding — in particular not on
+whether the LF behind the previous delimiter was delivered with that delimiter or with this
+message -/
+theorem decode10_padding_independent (ws1 ws1' p ws2 ws2' : Bytes) (h1 : AllSpace ws1) (h1' : AllSpace ws1')
+    (h2 : AllSpace ws2) (h2' : AllSpace ws2') :
+    decode10 (ws1 ++ p ++ Gen.Response.v1Dot0Delim ++ ws2) = decode10 (ws1' ++ p ++ Gen.Response.v1Dot0Delim ++ ws2') := by
+  unfold decode10
+  rw [trimSpace_frame10 ws1 p ws2 h1 h2, trimSpace_frame10 ws1' p ws2' h1' h2']
 
 /-- Failure classification: a parse error always marks the response failed, and so does a marker
 anywhere in the decoded payload (even when the marker was split over several chunks). -/
@@ -509,5 +580,189 @@ theorem generated_Record_eq (fuel : Nat) (errText : Go.Error → Bytes) (input :
         refine ⟨_, em, wm, rfl, ?_⟩
         cases hca : containsAny fwc res <;> simp [hca]
       | error err => exact ⟨_, em, wm, rfl, by simp⟩
+
+/-! ## NETCONF 1.0: the decoder as it was before fix 72d4808 (finding C02-F21, negative witness)
+
+Real servers end a message with `]]>]]>` + LF; when that LF arrives in a later transport read than
+the delimiter, the session read loop has already reset its buffer and the LF becomes the first byte
+of the NEXT raw reply. The old `record1dot0` looked for the declaration before it removed white
+space, so such a reply kept its declaration while the same bytes split differently did not. -/
+
+theorem trimSpace_lead (ws p : Bytes) (h : AllSpace ws) : trimSpace (ws ++ p) = trimSpace p := by
+  unfold trimSpace trimLeft
+  congr 1
+  induction ws with
+  | nil => rfl
+  | cons w t ih =>
+    have hw : isSpaceB w = true := h w (by simp)
+    simp only [List.cons_append, List.dropWhile_cons, hw, if_true]
+    exact ih (fun b hb => h b (by simp [hb]))
+
+/-- a text that begins with white space does not begin with the XML declaration -/
+theorem lead_not_header (ws rest : Bytes) (hne : ws ≠ []) (h : AllSpace ws) :
+    hasPrefix (ws ++ rest) Gen.Response.xmlHeader = false := by
+  cases ws with
+  | nil => exact absurd rfl hne
+  | cons w t =>
+    have hw : isSpaceB w = true := h w (by simp)
+    have hne60 : (w == 60) = false := by
+      cases hq : w == 60 with
+      | false => rfl
+      | true =>
+        have : w = 60 := by simpa using hq
+        subst this
+        exact absurd hw (by decide)
+    have hx : Gen.Response.xmlHeader = 60 :: Gen.Response.xmlHeader.tail := by decide
+    rw [hx]
+    simp [hasPrefix, hne60]
+
+/-- NEGATIVE WITNESS (finding C02-F21, the code before 72d4808): with any non-empty white space in
+front, a reply that carries the canonical declaration keeps it — for every payload `q`. -/
+theorem decode10_before_fix_keeps_declaration (ws1 q ws2 : Bytes) (hne : ws1 ≠ [])
+    (h1 : AllSpace ws1) (h2 : AllSpace ws2) :
+    decode10BeforeFix (ws1 ++ Gen.Response.xmlHeader ++ q ++ Gen.Response.v1Dot0Delim ++ ws2)
+      = trimSpace (Gen.Response.xmlHeader ++ q) := by
+  have hdr : hasPrefix (ws1 ++ Gen.Response.xmlHeader ++ q ++ Gen.Response.v1Dot0Delim ++ ws2) Gen.Response.xmlHeader = false := by
+    have := lead_not_header ws1 (Gen.Response.xmlHeader ++ q ++ Gen.Response.v1Dot0Delim ++ ws2) hne h1
+    simpa [List.append_assoc] using this
+  unfold decode10BeforeFix trimPrefix
+  rw [hdr]
+  simp only [Bool.false_eq_true, if_false]
+  have e : ws1 ++ Gen.Response.xmlHeader ++ q ++ Gen.Response.v1Dot0Delim ++ ws2
+      = (ws1 ++ (Gen.Response.xmlHeader ++ q)) ++ Gen.Response.v1Dot0Delim ++ ws2 := by simp
+  rw [e, decode10_body (ws1 ++ (Gen.Response.xmlHeader ++ q)) ws2 h2, trimSpace_lead ws1 _ h1]
+
+/-- … so the old decoder did not satisfy the padded statement `decode10_frame10_decl`: a concrete
+reply `LF <?xml …?> <a/> ]]>]]>` came back with its declaration -/
+theorem decode10_before_fix_violates : ¬ ∀ ws1 q ws2 : Bytes, AllSpace ws1 → AllSpace ws2 →
+    decode10BeforeFix (ws1 ++ Gen.Response.xmlHeader ++ q ++ Gen.Response.v1Dot0Delim ++ ws2) = trimSpace q := by
+  intro h
+  have := h [LF] [60, 97, 47, 62] [] (by intro b hb; simp at hb; subst hb; decide) (by intro b hb; simp at hb)
+  revert this
+  decide
+
+/-- the fixed decoder on the same reply -/
+example : decode10 ([LF] ++ Gen.Response.xmlHeader ++ [60, 97, 47, 62] ++ Gen.Response.v1Dot0Delim ++ []) = [60, 97, 47, 62] := by
+  decide
+
+/-! ## rpc-error messages (`ErrorMessages`, `WarningErrorMessages`) -/
+
+/-- every reported message is a contiguous piece of the bytes received (never bytes the server did
+not send) and has the shape opening tag … closing tag -/
+theorem messages_sound (mk : List Bytes) (raw m : Bytes)
+    (hm : m ∈ (messages mk raw).1 ∨ m ∈ (messages mk raw).2) :
+    (∃ a b, raw = a ++ m ++ b) ∧
+    ∃ o body c, o ∈ errOpenTags ∧ c ∈ errCloseTags ∧ m = o ++ body ++ c := by
+  unfold messages at hm
+  split at hm
+  · simp only [classifyMsgs, List.mem_filter] at hm
+    rcases hm with hm | hm <;> exact errorBlocks_spec _ _ _ hm.1
+  · simp at hm
+
+/-- the two lists are told apart by the severity element; `error` wins -/
+theorem messages_classified (mk : List Bytes) (raw m : Bytes) :
+    (m ∈ (messages mk raw).1 → isInfix sevError m = true) ∧
+    (m ∈ (messages mk raw).2 → isInfix sevWarning m = true ∧ isInfix sevError m = false) := by
+  unfold messages
+  split
+  · simp only [classifyMsgs, List.mem_filter, Bool.and_eq_true, Bool.not_eq_true']
+    exact ⟨fun h => h.2, fun h => ⟨h.2.2, h.2.1⟩⟩
+  · simp
+
+/-- non-vacuity: one warning block and one error block between other text -/
+example : messages Gen.Response.netconfFailedWhenContains
+    (ofStr "a<rpc-error><error-severity>warning</error-severity></rpc-error>b<rpc-errors>x<error-severity>error</error-severity></rpc-error>c")
+    = ([ofStr "<rpc-errors>x<error-severity>error</error-severity></rpc-error>"],
+       [ofStr "<rpc-error><error-severity>warning</error-severity></rpc-error>"]) := by decide +kernel
+
+/-- the severity loop of `Record` as translated from the current source appends exactly the
+classified blocks (the two severity texts are literals of the source) -/
+theorem generated_severity_loop_eq (xs : List Bytes) (i : Int) (em wm : List Bytes) :
+    Go.forRangeFrom (ρ := Option (Bytes × Bytes × Option (Bytes × Bytes × Bytes) × List Bytes × List Bytes))
+      (fun _ rpcerr (errorMessages, warningMessages) => (
+        let errStr := rpcerr
+        let (errorMessages, warningMessages) := if (isInfix ([60,101,114,114,111,114,45,115,101,118,101,114,105,116,121,62,101,114,114,111,114,60,47,101,114,114,111,114,45,115,101,118,101,114,105,116,121,62] : Bytes) errStr) then (
+            let errorMessages := (errorMessages ++ [errStr])
+            (errorMessages, warningMessages))
+          else if (isInfix ([60,101,114,114,111,114,45,115,101,118,101,114,105,116,121,62,119,97,114,110,105,110,103,60,47,101,114,114,111,114,45,115,101,118,101,114,105,116,121,62] : Bytes) errStr) then (
+            let warningMessages := (warningMessages ++ [errStr])
+            (errorMessages, warningMessages))
+          else (
+            (errorMessages, warningMessages))
+        .next (errorMessages, warningMessages))) i xs (em, wm)
+      = .fin (em ++ (classifyMsgs xs).1, wm ++ (classifyMsgs xs).2) := by
+  induction xs generalizing i em wm with
+  | nil => simp [Go.forRangeFrom, classifyMsgs]
+  | cons x xs ih =>
+    simp only [Go.forRangeFrom]
+    by_cases he : isInfix sevError x = true
+    · have he' : isInfix ([60,101,114,114,111,114,45,115,101,118,101,114,105,116,121,62,101,114,114,111,114,60,47,101,114,114,111,114,45,115,101,118,101,114,105,116,121,62] : Bytes) x = true := he
+      simp only [he', if_true]
+      rw [ih]
+      simp [classifyMsgs, he]
+    · have he0 : isInfix sevError x = false := by simpa using he
+      have he' : isInfix ([60,101,114,114,111,114,45,115,101,118,101,114,105,116,121,62,101,114,114,111,114,60,47,101,114,114,111,114,45,115,101,118,101,114,105,116,121,62] : Bytes) x = false := he0
+      by_cases hw : isInfix sevWarning x = true
+      · have hw' : isInfix ([60,101,114,114,111,114,45,115,101,118,101,114,105,116,121,62,119,97,114,110,105,110,103,60,47,101,114,114,111,114,45,115,101,118,101,114,105,116,121,62] : Bytes) x = true := hw
+        simp only [he', hw', Bool.false_eq_true, if_false, if_true]
+        rw [ih]
+        simp [classifyMsgs, he0, hw]
+      · have hw0 : isInfix sevWarning x = false := by simpa using hw
+        have hw' : isInfix ([60,101,114,114,111,114,45,115,101,118,101,114,105,116,121,62,119,97,114,110,105,110,103,60,47,101,114,114,111,114,45,115,101,118,101,114,105,116,121,62] : Bytes) x = false := hw0
+        simp only [he', hw', Bool.false_eq_true, if_false]
+        rw [ih]
+        simp [classifyMsgs, he0, hw0]
+
+set_option linter.unusedSimpArgs false in
+/-- `generated_Record_eq` with the message lists made explicit: on a response whose lists hold `em`
+and `wm`, `Record(b)` as translated from the current source appends to them exactly the classified
+blocks of `findAllErr b` (`rpcSingleErrors.FindAll`) when a failure marker occurs in the raw bytes,
+and leaves them alone otherwise. With `generated_severity_loop_eq` this pins the two severity
+texts and the precedence of `error` over `warning` to the model (`classifyMsgs`). -/
+theorem generated_Record_messages_eq (fuel : Nat) (errText : Go.Error → Bytes) (input : Bytes) (fwc : List Bytes)
+    (findErr : Bytes → Bytes) (findAllErr : Bytes → List Bytes) (raw0 : Bytes) (em wm : List Bytes)
+    (v : Version) (b : Bytes) (hf : b.length + Gen.Response.maxChunkSizeCharLen + 2 ≤ fuel) :
+    ∃ f, Gen.Bodies.Response.record fuel errText input fwc (verStr v) findErr findAllErr raw0 [] none em wm b
+        = some (b, (record fwc v b).result, f,
+            em ++ (if containsAny fwc b then (classifyMsgs (findAllErr b)).1 else []),
+            wm ++ (if containsAny fwc b then (classifyMsgs (findAllErr b)).2 else []))
+      ∧ f.isSome = (record fwc v b).failed := by
+  have hne : (Gen.Response.v1Dot1 == Gen.Response.v1Dot0) = false := by decide
+  unfold Gen.Bodies.Response.record
+  simp only [generated_byteContainsAny_eq, generated_record1dot0_eq]
+  have hrec := generated_record1dot1Chunks_eq fuel b [] hf
+  have hl := generated_severity_loop_eq (findAllErr b) 0 em wm
+  cases v with
+  | v10 =>
+    by_cases hc : containsAny fwc b = true
+    · simp only [hc, if_true, Go.forRange, hl, verStr, beq_self_eq_true, record]
+      refine ⟨_, rfl, ?_⟩
+      simp
+    · have hc' : containsAny fwc b = false := by simpa using hc
+      simp only [hc', Bool.false_eq_true, if_false, verStr, beq_self_eq_true, if_true, record, List.append_nil]
+      refine ⟨_, rfl, ?_⟩
+      cases containsAny fwc (decode10 b) <;> simp
+  | v11 =>
+    have h11 : ∀ f0 : Option (Bytes × Bytes × Bytes),
+        Gen.Bodies.Response.record1dot1 fuel errText input b [] f0
+          = some (match decode11 b with
+              | .ok res => (res, f0)
+              | .error _ => ([], some (input, [], errText (some "errNetconf1Dot1Error")))) := by
+      intro f0
+      unfold Gen.Bodies.Response.record1dot1
+      rw [hrec]
+      cases decode11 b <;> simp
+    by_cases hc : containsAny fwc b = true
+    · simp only [hc, if_true, Go.forRange, hl, verStr, hne, Bool.false_eq_true, if_false, beq_self_eq_true, h11, record]
+      cases hd : decode11 b with
+      | ok res => exact ⟨_, rfl, by simp⟩
+      | error err => exact ⟨_, rfl, by simp⟩
+    · have hc' : containsAny fwc b = false := by simpa using hc
+      simp only [hc', Bool.false_eq_true, if_false, verStr, hne, beq_self_eq_true, if_true, h11, record, List.append_nil]
+      cases hd : decode11 b with
+      | ok res =>
+        refine ⟨_, rfl, ?_⟩
+        cases hca : containsAny fwc res <;> simp [hca]
+      | error err => exact ⟨_, rfl, by simp⟩
 
 end Scrapli.Netconf.C02
